@@ -41,8 +41,23 @@ def write_toml_atomic(spec, tier, seed):
     opens = [ast.unparse(n) for n in ast.walk(fn) if isinstance(n, ast.Call) and ast.unparse(n.func) == "open"]
     replaces = [ast.unparse(n) for n in ast.walk(fn) if isinstance(n, ast.Call) and ast.unparse(n.func) in ("os.replace", "os.rename")]
     direct = [o for o in opens if "restart.toml'" in o.replace('"', "'") and ("'wb'" in o.replace('"', "'") or "'w'" in o.replace('"', "'"))]
-    ok = not direct and any("restart.toml" in r for r in replaces)
-    w = None if ok else {"opens": opens, "replaces": replaces}
+    # structure: `with open(TMP, 'wb') as f: dump(..., f)` as a statement of the function body, and AFTER it (not inside it: the
+    # file must be flushed and closed before it is renamed into place) exactly one os.replace(TMP, './restart.toml')
+    withs = [(k, n) for k, n in enumerate(fn.body) if isinstance(n, ast.With) and any(isinstance(i.context_expr, ast.Call) and ast.unparse(i.context_expr.func) == "open" for i in n.items)]
+    structure = False
+    if len(withs) == 1:
+        k, wnode = withs[0]
+        call = wnode.items[0].context_expr
+        tmp = ast.unparse(call.args[0]) if call.args else None
+        fvar = ast.unparse(wnode.items[0].optional_vars) if wnode.items[0].optional_vars is not None else None
+        dumps = [c for c in ast.walk(wnode) if isinstance(c, ast.Call) and ast.unparse(c.func).endswith(".dump") and fvar in [ast.unparse(a) for a in c.args]]
+        inside = [c for c in ast.walk(wnode) if isinstance(c, ast.Call) and ast.unparse(c.func) in ("os.replace", "os.rename")]
+        after = [n for n in fn.body[k + 1:] if isinstance(n, ast.Expr) and isinstance(n.value, ast.Call) and ast.unparse(n.value.func) in ("os.replace", "os.rename")]
+        structure = (tmp is not None and "restart.toml'" not in tmp.replace('"', "'").replace(".tmp", "") or ".tmp" in (tmp or "")) and len(dumps) == 1 and not inside and len(after) == 1 \
+            and [ast.unparse(a) for a in after[0].value.args][:1] == [tmp] and "restart.toml" in ast.unparse(after[0].value.args[1]) and ".tmp" not in ast.unparse(after[0].value.args[1]) \
+            and len(replaces) == 1
+    ok = not direct and any("restart.toml" in r for r in replaces) and structure
+    w = None if ok else {"opens": opens, "replaces": replaces, "temporary_file_closed_before_the_rename": structure}
     return {"job": "write_toml_atomic", "obligations": [{"name": "write_toml/restart_file_replaced_atomically_never_truncated_in_place", "result": "unsat" if ok else "sat", "label": "proved", "backend": "ast-dataflow",
             "time_s": 0.0, "engine": "E1-callsite", "witness": w, "solver_output": None if ok else str(w)}]}
 
